@@ -35,7 +35,8 @@ LEVEL_NOTE = "Trusts the reference model in vlib/enginelab.py (about 100 lines w
 
 COUNT_FIELDS = ["n_warm", "n_start", "n_end", "n_tune", "n_slow", "n_trans", "n_adapt"]
 ORDER_FIELDS = ["last_warm_seq", "last_start_seq", "last_end_seq", "last_tune_seq", "seq"]
-ARG_FIELDS = ["start_nth", "start_time", "start_tie", "start_type", "end_nth", "end_time", "end_tie", "tune_nth", "tune_time", "tune_tie", "warm_th_len"]
+ARG_FIELDS = ["start_nth", "start_time", "start_tie", "start_type", "end_nth", "end_time", "end_tie", "tune_nth", "tune_time", "tune_tie", "warm_th_len",
+              "start_dur", "start_thin", "end_dur", "end_thin", "end_type", "tune_dur", "tune_thin", "tune_type"]
 HIST_FIELDS = ["tune_hist_len", "tune_hist_digest"]
 STEP_FIELDS = ["time", "time_in_epoch", "etype", "nth", "duration", "thinning", "adaptive", "pre", "post"]
 
